@@ -161,11 +161,21 @@ class Impl:
         def fbare(ctx, it):
             got['args'] = (it,)
             return impl.retval
+        def f0(ctx):
+            got['args'] = ()
+            return impl.retval
         kw = {'_args': names}
         if opts.get('bare'):
             kw = {'_body_style': 'bare'}
+        if opts.get('body_style') == 'out_bare':
+            kw['_body_style'] = 'out_bare'
+        if opts.get('body_style') == 'bare-noargs':
+            kw, types = {'_body_style': 'bare'}, []
         if ret is not None and style != 'none':
-            kw['_returns'] = (self.P[ret], Unicode) if style == 'two' else self.P[ret]
+            rt = self.P[ret]
+            if opts.get('ret_enc'):
+                rt = rt(encoding=opts['ret_enc'])
+            kw['_returns'] = (rt, Unicode) if style == 'two' else rt
         self.in_hdr_cls = None
         if opts.get('in_hdr'):
             self.in_hdr_cls = self.Meta('ReqHeader', (ComplexModel,), {
@@ -175,7 +185,8 @@ class Impl:
             self.hdr_cls = self.Meta('RespHeader', (ComplexModel,), {
                 '_type_info': [(uncps(h['n']), self.type_of(h)) for h in hdr_fields], '__namespace__': 'tns'})
             kw['_out_header'] = self.hdr_cls
-        dec = rpc(*types, **kw)(fgen if style == 'gen' else fbare if opts.get('bare') else f)
+        dec = rpc(*types, **kw)(fgen if style == 'gen' else fbare if opts.get('bare') else
+                                f0 if opts.get('body_style') == 'bare-noargs' else f)
         sattrs = {'f': dec}
         if self.in_hdr_cls is not None:
             sattrs['__in_header__'] = self.in_hdr_cls
@@ -823,6 +834,24 @@ def measure_facts():
         keys = None
     f['encGuard'] = ('rootOnly' if keys == ['a.x', 'b.x', 'l[0].x', 'l[1].x', 'l[2].x'] else
                      'visited' if keys == ['a.x'] or keys == ['a.x', 'l[1].x'] else 'other')
+    # result hand-over: bare styles, declared text encoding of the return type
+    ok_b = True
+    for bs, qs in (('out_bare', 'a=1'), ('bare-noargs', '')):
+        try:
+            i_ = Impl([fld('a', P('int'))], None, 'str', None, {'body_style': bs})
+            i_.retval = 'x\u00fc'
+            r_, st_, body_ = i_.get(qs)
+            ok_b = ok_b and st_.get('status', '').startswith('200') and body_ == 'x\u00fc'.encode('utf8')
+        except Exception:
+            ok_b = False
+    f['bareReturnsServed'] = bool(ok_b)
+    try:
+        i_ = Impl([fld('a', P('int'))], None, 'str', None, {'ret_enc': 'iso-8859-9'})
+        i_.retval = '\u011f\u00fc'
+        r_, st_, body_ = i_.get('a=1')
+        f['retEncDeclaredWins'] = body_ == '\u011f\u00fc'.encode('iso-8859-9')
+    except Exception:
+        f['retEncDeclaredWins'] = False
     # when a GET is answered with the WSDL
     from spyne.server.wsgi import WsgiApplication
     wa = Impl([fld('a', P('int'))], cfg0).wsgi
@@ -843,7 +872,8 @@ WSDL_PROBES = ['wsdl', 'WSDL', 'Wsdl=1&a=2', 'wsdl=', 'a=1&wsdl', 'a=x.wsdl', 'a
 
 
 GOOD = {'keyOrder': 'natural', 'tagScope': 'perBranch', 'freqScope': 'perMember', 'subNameScope': 'member',
-        'wsdlRule': 'firstName', 'encGuard': 'rootOnly', 'bytesDeclaredWins': True}
+        'wsdlRule': 'firstName', 'encGuard': 'rootOnly', 'bytesDeclaredWins': True, 'bareReturnsServed': True,
+        'retEncDeclaredWins': True}
 GOOD_C05 = {'freqTouch': True, 'freqAccumulates': True}      # soft-validation switches: reported by part_c05 (property C05), modelled either way
 
 
@@ -854,6 +884,10 @@ def fact_witness(k):
         val = {'o': [[cps('o'), {'o': [[cps('nm'), {'s': cps('pen')}], [cps('qty'), {'i': '3'}]]}]]}
         return {'op': 'documented', 'fields': [fld('o', item, py='order')], 'cfg': {'strict': False, 'soft': False, 'delim': cps('.')},
                 'qs': 'o.nm=pen&o.qty=3', 'expected': val}
+    if k == 'bareReturnsServed':
+        return {'op': 'return-style', 'style': 'out-bare', 'chunked': True}
+    if k == 'retEncDeclaredWins':
+        return {'op': 'return-encoding', 'enc': 'iso-8859-9', 'text': '\u011f\u00fc\u015f'}
     if k == 'bytesDeclaredWins':
         val = {'o': [[cps('k'), {'x': [0xde, 0xad, 0xbe, 0xef]}]]}
         return {'op': 'documented', 'fields': [fld('k', {'k': 'bytes', 'enc': 'hex', 'encd': True})],
@@ -915,11 +949,13 @@ def facts03 : Facts03 where
   wsdlRule := .%s
   encGuard := .%s
   bytesDeclaredWins := %s
+  bareReturnsServed := %s
+  retEncDeclaredWins := %s
 
 end SpyneModel.Generated
 ''' % (f['keyOrder'], f['tagScope'], f['freqScope'], b(f['freqTouch']), b(f['freqAccumulates']),
        '"%s".toList' % f['emptyMarker'], ', '.join(ch(c) for c in f['pairSeps']),
-       b(f['plusIsSpace']), b(f['boolFormWords']), b(f['intEmptyIsNone']), f['subNameScope'], f['wsdlRule'], f['encGuard'], b(f['bytesDeclaredWins']))
+       b(f['plusIsSpace']), b(f['boolFormWords']), b(f['intEmptyIsNone']), f['subNameScope'], f['wsdlRule'], f['encGuard'], b(f['bytesDeclaredWins']), b(f['bareReturnsServed']), b(f['retEncDeclaredWins']))
 
 
 # ------------------------------------------------------------------------------------ fixed corpus
@@ -989,6 +1025,8 @@ def run(ctx):
                 r0, _, _ = Impl(w['fields'], w['cfg']).get(w['qs'])
                 r = None if 'fault' in r0 else 'soft validation lets %r through although member x is mandatory: %s' % (
                     w['qs'], core.canon(r0)[:200])
+            elif w['op'] in ('return-style', 'return-encoding'):
+                r = 'the result does not arrive as its exact text (see the replay)'
             elif w['op'] == 'roundtrip':
                 r = check_roundtrip(w['fields'], w['cfg'], w['val'], w.get('share', False))
             else:
@@ -1030,6 +1068,7 @@ def run(ctx):
     t3_bare(ctx, add)
     t3_in_header(ctx, add)
     t3_return_styles(ctx, add)
+    t3_return_encodings(ctx)
     t3_shared_headers(ctx)
     t3_conflict(ctx)
     t3_novalidate(ctx)
@@ -1762,9 +1801,10 @@ def t3_return_styles(ctx, add):
     rng = ctx.rng
     sig = [fld('a', P('int'))]
     hf = [fld('X-Count', P('int'))]
-    for i in range(54 if ctx.thorough else 18):
-        style = ['none', 'two', 'two-uncap', 'gen', 'fault', 'hdr-list', 'plain-none', 'gen-fault-first', 'gen-fault-later'][i % 9]
-        chunked = (i // 9) % 2 == 0
+    for i in range(66 if ctx.thorough else 22):
+        style = ['none', 'two', 'two-uncap', 'gen', 'fault', 'hdr-list', 'plain-none', 'gen-fault-first', 'gen-fault-later',
+                 'out-bare', 'bare-noargs'][i % 11]
+        chunked = (i // 11) % 2 == 0
         opts = {'chunked': chunked}
         kind = 'str'
         if style in ('none', 'fault', 'plain-none'):
@@ -1776,6 +1816,8 @@ def t3_return_styles(ctx, add):
             opts['style'], kind = 'gen', 'bytes'
             if style != 'gen':
                 opts['gen_fault'] = style.split('-')[-1]
+        elif style in ('out-bare', 'bare-noargs'):
+            opts['body_style'] = 'out_bare' if style == 'out-bare' else 'bare-noargs'
         else:
             opts['hdr_as_list'] = True
         impl = get_impl(sig, None, kind, hf if style == 'hdr-list' else None, opts)
@@ -1787,7 +1829,7 @@ def t3_return_styles(ctx, add):
         if style == 'hdr-list':
             impl.out_header = impl.hdr_cls()
             setattr(impl.out_header, 'X-Count', 7)
-        r, st, body = impl.get('a=1')
+        r, st, body = impl.get('' if style == 'bare-noargs' else 'a=1')
         impl.retval, impl.out_header = None, None
         hd = st.get('headers', [])
         status = st.get('status', '')
@@ -1802,6 +1844,8 @@ def t3_return_styles(ctx, add):
         elif style == 'gen':
             ok = status.startswith('200') and body == b''.join(chunks) and called and \
                 (cl == [str(len(body))] if not chunked else cl in ([], [str(len(body))]))
+        elif style in ('out-bare', 'bare-noargs'):
+            ok = status.startswith('200') and body == text.encode('utf8') and called and cl == [str(len(body))]
         elif style == 'gen-fault-later' and chunked:
             ok = status.startswith('200')       # streaming: the headers are out when the generator fails; the body is cut short
         elif style in ('fault', 'gen-fault-first', 'gen-fault-later'):
@@ -1812,6 +1856,30 @@ def t3_return_styles(ctx, add):
             ctx.hit('t3-fail:return-style')
             ctx.finding('return-style:' + style, 'result handed over as %r (chunked=%s): %r %r %r' % (style, chunked, status, hd, body[:80]),
                         {'op': 'return-style', 'style': style, 'chunked': chunked})
+
+
+def t3_return_encodings(ctx):
+    """a return type that declares its text encoding (`Unicode(encoding='iso-8859-9')`): the body is the value in THAT
+    encoding, Content-Length its length in bytes; types without a declared encoding are sent as UTF-8"""
+    rng = ctx.rng
+    values = ['\u011f\u00fc\u015f\u0130', 'caf\u00e9', 'abc', '\u00df\u00e4~', 'I\u015f\u0131k \u00f6\u011frenci']
+    for enc in ('iso-8859-9', 'cp1254', 'utf-16', 'utf-8', None):
+        impl = get_impl([fld('a', P('int'))], None, 'str', None, {'ret_enc': enc} if enc else None)
+        for text in values + [rng.choice(values) + rng.choice(['x', '\u00fc'])]:
+            try:
+                exp = text.encode(enc or 'utf-8')
+            except UnicodeEncodeError:
+                continue
+            impl.retval = text
+            r, st, body = impl.get('a=1')
+            impl.retval = None
+            ctx.cov['traces_validated_against_impl'] += 1
+            ctx.hit('return-encoding:%s:%s' % (enc, 'ascii' if text.isascii() else 'non-ascii'))
+            hd = st.get('headers', [])
+            if not (st.get('status', '').startswith('200') and body == exp and ('Content-Length', str(len(exp))) in hd):
+                ctx.hit('t3-fail:return-encoding')
+                ctx.finding('return:declared-encoding', 'return type Unicode(encoding=%r), value %r: sent as %r %r, expected body %r'
+                            % (enc, text, st.get('status'), body[:60], exp[:60]), {'op': 'return-encoding', 'enc': enc, 'text': text})
 
 
 def t3_shared_headers(ctx):
@@ -2394,6 +2462,23 @@ def part_c05(ctx):
                     c05_flat_verdicts(ctx, fcn, {'o': ['f', [['c', {'o': [inner['name'], [['tags', {'l': [
                         {'s': cps('t%d' % j)} for j in range(n)]}]]]}]]]}, 'occurs', add, idx)
         c05_flat_verdicts(ctx, fc, {'o': ['f', [['m', None]]]}, 'occurs', add)
+    # the same class reachable through two members (and nested): the constraints of the SECOND occurrence are enforced too
+    pcls = {'k': 'obj', 'name': 'Pt', 'ns': 'tns', 'base': None, 'occ': H.occ(True, 0, 1),
+            'fields': [['x', {'k': 'int', 'kind': 'i8', 'r': {}, 'occ': H.occ(True, 0, 1)}],
+                       ['s', {'k': 'str', 'minLen': 0, 'maxLen': 3, 'pattern': None, 'values': [], 'occ': H.occ(True, 0, 1)}]]}
+    wcls = {'k': 'obj', 'name': 'Wr', 'ns': 'tns', 'base': None, 'occ': H.occ(True, 0, 1), 'fields': [['inner', pcls], ['n', {'k': 'int', 'kind': 'i32', 'r': {}, 'occ': H.occ(True, 0, 1)}]]}
+    pv = lambda x, s_: {'o': ['Pt', [['x', None if x is None else {'i': str(x)}], ['s', None if s_ is None else {'s': cps(s_)}]]]}
+    for sig_, mk in (([['src', pcls], ['dst', pcls]], lambda a, b: [['src', a], ['dst', b]]),
+                     ([['src', pcls], ['mid', pcls], ['dst', pcls]], lambda a, b: [['src', a], ['mid', a], ['dst', b]]),
+                     ([['src', pcls], ['w', wcls]], lambda a, b: [['src', a], ['w', {'o': ['Wr', [['inner', b], ['n', {'i': '1'}]]]}]])):
+        try:
+            fc2 = FlatCase(H.FixedCase(sig_))
+        except Exception:
+            continue
+        for x, s_, what in ((1, 'ab', None), (127, 'abc', None), (500, 'ab', 'int-range'), (-129, None, 'int-range'), (1, 'abcd', 'max_len')):
+            ctx.hit('c05flat:same-class-twice:%s' % (what or 'conformant'))
+            c05_flat_verdicts(ctx, fc2, {'o': ['f', mk(pv(1, 'a'), pv(x, s_))]}, what, add)
+            c05_flat_verdicts(ctx, fc2, {'o': ['f', mk(pv(x, s_), pv(1, 'a'))]}, what, add)
     t3_history(ctx, add, c05=True)
     if Q:
         # the C03 driver is not among C05's own targets: make sure it is built against the facts of THIS run
@@ -2468,6 +2553,15 @@ def replay(ctx, obj):
             print(fid, ':', what[:400])
         print('style %r, chunked=%s: %s' % (obj['style'], obj['chunked'], 'still wrong' if c.found else 'as expected'))
         return 1 if c.found else 0
+    if op == 'return-encoding':
+        impl = Impl([fld('a', P('int'))], None, 'str', None, {'ret_enc': obj['enc']} if obj['enc'] else None)
+        impl.retval = obj['text']
+        r, st, body = impl.get('a=1')
+        exp = obj['text'].encode(obj['enc'] or 'utf-8')
+        print('returns Unicode(encoding=%r): value %r' % (obj['enc'], obj['text']))
+        print('expected body:', exp)
+        print('impl         :', st.get('status'), body[:120], [h for h in st.get('headers', []) if h[0] == 'Content-Length'])
+        return 0 if st.get('status', '').startswith('200') and body == exp else 1
     if op == 'shared-headers':
         lim = obj(7900, [fld('Limit', P('int')), fld('Unit', P('str'))])
         hf = [fld('X-Read', lim), fld('X-Write', lim), fld('X-Many', lim, True), fld('X-N', P('int'))]
